@@ -71,26 +71,36 @@ def write_if_changed(path, content):
 
 
 def prepare(table_ids=None):
-    """tables + project files.  returns the gen_tables result dict (or raises Shape)."""
+    """tables + project files.  Requested tables (None = all) are regenerated fail-closed
+    (Shape propagates); the others are only created when missing, so that one property's
+    source change never disturbs another property's build.  returns the gen_tables dict."""
     tables = gen_tables.generate(table_ids)
+    if table_ids is not None:
+        gen_tables._load_tables()
+        for tid in sorted(gen_tables.GENERATORS):
+            if tid not in tables and not os.path.exists(os.path.join(COQ, 'gen', tid + '.v')):
+                try:
+                    gen_tables.generate([tid])
+                except gen_tables.Shape:
+                    pass
     dirs = ['Base', 'gen'] + pids()
     proj = ''.join('-Q %s %s\n' % (d, d) for d in dirs + ['Ext'])
     vfiles = []
     for d in dirs:
         vfiles += sorted(os.path.relpath(p, COQ) for p in glob.glob(os.path.join(COQ, d, '*.v')))
-    vfiles.append('Ext/Extract.v')
-    proj += ''.join(f + '\n' for f in vfiles)
     os.makedirs(os.path.join(COQ, 'Ext'), exist_ok=True)
-    ext = 'Require Import ExtrOcamlBasic.\n'
     for p in pids():
-        ext += 'Require %s.Model.\nDefinition run_%s := %s.Model.run.\n' % (p, p, p)
-    ext += 'Extraction "modelrun_gen.ml" %s.\n' % ' '.join('run_' + p for p in pids())
-    write_if_changed(os.path.join(COQ, 'Ext', 'Extract.v'), ext)
-    disp = 'open Modelrun_gen\nlet table = [%s]\n' % '; '.join('("%s", run_%s)' % (p, p) for p in pids())
-    write_if_changed(os.path.join(COQ, 'driver', 'dispatch.ml'), disp)
+        ext = ('Require Import ExtrOcamlBasic.\nRequire %s.Model.\nDefinition run_%s := %s.Model.run.\n'
+               'Extraction "modelrun_%s.ml" run_%s.\n' % (p, p, p, p, p))
+        write_if_changed(os.path.join(COQ, 'Ext', 'Extract_%s.v' % p), ext)
+        vfiles.append('Ext/Extract_%s.v' % p)
+    for f in glob.glob(os.path.join(COQ, 'Ext', '*.v')):
+        if os.path.relpath(f, COQ) not in vfiles:
+            os.remove(f)
+    proj += ''.join(f + '\n' for f in vfiles)
     if write_if_changed(os.path.join(COQ, '_CoqProject'), proj) or not os.path.exists(os.path.join(COQ, 'Makefile')):
         subprocess.run(['coq_makefile', '-f', '_CoqProject', '-o', 'Makefile'], cwd=COQ, check=True,
-                       stdout=subprocess.DEVNULL)
+                       stdout=subprocess.DEVNULL, stderr=subprocess.DEVNULL)
     return tables
 
 
@@ -101,23 +111,31 @@ def make(targets, timeout=1500):
     return p.returncode == 0, p.stdout
 
 
-def link():
-    ml = os.path.join(COQ, 'modelrun_gen.ml')
-    exe = os.path.join(COQ, 'modelrun')
-    srcs = [ml, os.path.join(COQ, 'driver', 'dispatch.ml'), os.path.join(COQ, 'driver', 'main.ml')]
-    if os.path.exists(exe) and all(os.path.getmtime(exe) >= os.path.getmtime(s) for s in srcs):
+def exe(pid):
+    return os.path.join(COQ, 'bin', 'modelrun_' + pid)
+
+
+def link(pid):
+    """one binary per property: coq/bin/modelrun_Cnn"""
+    ml = os.path.join(COQ, 'modelrun_%s.ml' % pid)
+    out = exe(pid)
+    main = os.path.join(COQ, 'driver', 'main.ml')
+    if not os.path.exists(ml):
+        return False, 'no extracted file ' + ml
+    if os.path.exists(out) and all(os.path.getmtime(out) >= os.path.getmtime(x) for x in (ml, main)):
         return True, ''
-    bdir = os.path.join(COQ, '_ocaml')
+    bdir = os.path.join(COQ, '_ocaml', pid)
     os.makedirs(bdir, exist_ok=True)
-    for s in srcs + [ml + 'i']:
-        subprocess.run(['cp', s, bdir], check=True)
-    p = subprocess.run(['ocamlfind', 'ocamlopt', '-O3', '-w', '-a', '-package', 'str', 'modelrun_gen.mli', 'modelrun_gen.ml',
-                        'dispatch.ml', 'main.ml', '-o', exe], cwd=bdir,
+    os.makedirs(os.path.dirname(out), exist_ok=True)
+    import shutil
+    shutil.copy(ml, os.path.join(bdir, 'modelrun_gen.ml'))
+    shutil.copy(ml + 'i', os.path.join(bdir, 'modelrun_gen.mli'))
+    shutil.copy(main, bdir)
+    with open(os.path.join(bdir, 'dispatch.ml'), 'w') as f:
+        f.write('open Modelrun_gen\nlet table = [("%s", run_%s)]\n' % (pid, pid))
+    p = subprocess.run(['ocamlfind', 'ocamlopt', '-w', '-a', 'modelrun_gen.mli', 'modelrun_gen.ml',
+                        'dispatch.ml', 'main.ml', '-o', out], cwd=bdir,
                        stdout=subprocess.PIPE, stderr=subprocess.STDOUT, text=True)
-    if p.returncode != 0:  # -O3 needs flambda; retry without
-        p = subprocess.run(['ocamlfind', 'ocamlopt', '-w', '-a', 'modelrun_gen.mli', 'modelrun_gen.ml',
-                            'dispatch.ml', 'main.ml', '-o', exe], cwd=bdir,
-                           stdout=subprocess.PIPE, stderr=subprocess.STDOUT, text=True)
     return p.returncode == 0, p.stdout
 
 
@@ -172,15 +190,17 @@ def build_for(pid, table_ids=None):
             out['shape_error'] = str(e)
             out['log'] = 'gen_tables shape error: %s' % e
             # the stale tables stay; model may still build from them
-        ok, log = make(['Ext/Extract.vo'])
+        ext = 'Ext/Extract_%s.vo' % pid
+        ok, log = make([ext])
         if not ok:      # a stale dependency file after new .v files appeared: regenerate and retry once
-            subprocess.run(['coq_makefile', '-f', '_CoqProject', '-o', 'Makefile'], cwd=COQ, stdout=subprocess.DEVNULL)
-            ok, log2 = make(['Ext/Extract.vo'])
+            subprocess.run(['coq_makefile', '-f', '_CoqProject', '-o', 'Makefile'], cwd=COQ,
+                           stdout=subprocess.DEVNULL, stderr=subprocess.DEVNULL)
+            ok, log2 = make([ext])
             log += log2
         out['log'] += log[-4000:]
         out['model_log'] = log[-3000:]
         if ok:
-            ok2, log2 = link()
+            ok2, log2 = link(pid)
             out['model_ok'] = ok2
             out['log'] += log2[-2000:]
             out['model_log'] = out.get('model_log', '') + log2[-2000:]
@@ -198,25 +218,34 @@ def build_for(pid, table_ids=None):
 
 def main():
     t0 = time.time()
+    bad = []
     with Lock():
-        try:
-            tables = prepare()
-        except gen_tables.Shape as e:
-            print('SHAPE ERROR', e)
-            return 3
-        for k, v in tables.items():
-            print('table', k, v['sha'], 'changed' if v['changed'] else 'same')
+        gen_tables._load_tables()
+        for tid in sorted(gen_tables.GENERATORS):
+            try:
+                r = gen_tables.generate([tid])
+                print('table', tid, r[tid]['sha'], 'changed' if r[tid]['changed'] else 'same')
+            except gen_tables.Shape as e:
+                print('SHAPE ERROR', tid, e)
+                bad.append(tid)
+        prepare([])
         ok, log = make(['all'])
         print(log[-3000:])
         if not ok:
-            print('make failed')
-        ok2, log2 = link()
-        print(log2)
+            print('make failed (some targets)')
+        from concurrent.futures import ThreadPoolExecutor
+        with ThreadPoolExecutor(8) as ex:
+            res = list(ex.map(lambda p: (p,) + link(p), pids()))
+        for p, ok2, log2 in res:
+            if not ok2:
+                print('link failed', p, log2[-500:])
+                bad.append(p)
         hits = grep_gate()
         for h in hits:
             print('GATE', h)
-    print('setup %s in %.1fs' % ('ok' if ok and ok2 and not hits else 'FAILED', time.time() - t0))
-    return 0 if ok and ok2 and not hits else 1
+    good = ok and not bad and not hits
+    print('setup %s in %.1fs' % ('ok' if good else 'FAILED', time.time() - t0))
+    return 0 if good else 1
 
 
 if __name__ == '__main__':
